@@ -1,14 +1,16 @@
 import Octo.Model.OutputFormat
 import Octo.Spec.JsonCsv
+import Octo.Spec.TimeText
 /-!
   Octo.Spec.OutputSpec — what C25 demands of one output line, stated on the *decoded* document:
 
   * `fits τ v`         — the value is one the static type describes (the hypothesis of the property:
                           rows of a query result have the types of the schema);
-  * `matchesV L τ v j` — the JSON document `j` *is* the value `v`: NULL ↦ null, ints and floats exact
+  * `matchesV τ v j`   — the JSON document `j` *is* the value `v`: NULL ↦ null, ints and floats exact
                           (the number literal denotes exactly the int / rounds to exactly the float),
-                          strings byte for byte, lists / objects / tuples keep their structure and the
-                          objects carry the field names of the type;
+                          strings byte for byte, a time is an RFC 3339 text of exactly that instant, a duration
+                          a text denoting exactly that many nanoseconds, lists / objects / tuples keep their
+                          structure and the objects carry the field names of the type;
   * `csvCellOk`        — a CSV field is the text of a scalar, NULL is the empty field.
 -/
 namespace Octo.Spec
@@ -47,7 +49,7 @@ def nonFiniteText (bits : Nat) : Bytes :=
 
 mutual
 /-- the decoded JSON document `j` is the value `v` of type `τ` -/
-def matchesV (L : Lib) (τ : Ty) (v : Value) (j : JVal) : Bool :=
+def matchesV (τ : Ty) (v : Value) (j : JVal) : Bool :=
   match pick τ v.rank with
   | none => false
   | some t =>
@@ -58,33 +60,33 @@ def matchesV (L : Lib) (τ : Ty) (v : Value) (j : JVal) : Bool :=
     | .float b, .null => !finite b            -- JSON has no NaN / Infinity
     | .bool a, .bool b => a == b
     | .str s, .str t => strBytes s == t
-    | .time ns loc, .str t => L.fmtTime ns loc == t
-    | .dur ns, .str t => L.fmtDur ns == t
+    | .time ns _, .str t => TimeText.parseRfc3339 t == some ns
+    | .dur ns, .str t => TimeText.parseDuration t == some ns
     | .list xs, .arr js =>
       match elemTy t with
-      | some e => matchesAll L e xs js
+      | some e => matchesAll e xs js
       | none => xs.isEmpty && js.isEmpty
-    | .struct xs, .obj ks js => ks == (fieldNames t).map nameBytes && matchesEach L (fieldTys t) xs js
-    | .tuple xs, .arr js => matchesEach L (tupleTys t) xs js
+    | .struct xs, .obj ks js => ks == (fieldNames t).map nameBytes && matchesEach (fieldTys t) xs js
+    | .tuple xs, .arr js => matchesEach (tupleTys t) xs js
     | _, _ => false
-def matchesAll (L : Lib) (e : Ty) : List Value → List JVal → Bool
+def matchesAll (e : Ty) : List Value → List JVal → Bool
   | [], [] => true
-  | x :: xs, j :: js => matchesV L e x j && matchesAll L e xs js
+  | x :: xs, j :: js => matchesV e x j && matchesAll e xs js
   | _, _ => false
-def matchesEach (L : Lib) : List Ty → List Value → List JVal → Bool
+def matchesEach : List Ty → List Value → List JVal → Bool
   | _, [], [] => true
-  | t :: ts, x :: xs, j :: js => matchesV L t x j && matchesEach L ts xs js
+  | t :: ts, x :: xs, j :: js => matchesV t x j && matchesEach ts xs js
   | _, _, _ => false
 end
 
 /-- a decoded `-o json` line is the row -/
-def rowMatches (L : Lib) (names : List Name) (tys : List Ty) (vals : List Value) (j : JVal) : Bool :=
+def rowMatches (names : List Name) (tys : List Ty) (vals : List Value) (j : JVal) : Bool :=
   match j with
-  | .obj ks js => ks == names.map nameBytes && matchesEach L tys vals js
+  | .obj ks js => ks == names.map nameBytes && matchesEach tys vals js
   | _ => false
 
 /-- a CSV field is the text of the scalar `v` (NULL ↦ empty; nothing is demanded of non-scalars) -/
-def csvCellOk (L : Lib) (v : Value) (field : Bytes) : Bool :=
+def csvCellOk (v : Value) (field : Bytes) : Bool :=
   match v with
   | .null => field.isEmpty
   | .int i => Num.intLit field == some i
@@ -92,19 +94,19 @@ def csvCellOk (L : Lib) (v : Value) (field : Bytes) : Bool :=
     if finite b then Json.validNumber field && Num.litToF64 field == b else field == nonFiniteText b
   | .bool b => field == (if b then trueLit else falseLit)
   | .str s => field == strBytes s
-  | .time ns loc => field == L.fmtTime ns loc
-  | .dur ns => field == L.fmtDur ns
+  | .time ns _ => TimeText.parseRfc3339 field == some ns
+  | .dur ns => TimeText.parseDuration field == some ns
   | _ => true
 
-def csvRowOk (L : Lib) : List Value → List Bytes → Bool
+def csvRowOk : List Value → List Bytes → Bool
   | [], [] => true
-  | v :: vs, f :: fs => csvCellOk L v f && csvRowOk L vs fs
+  | v :: vs, f :: fs => csvCellOk v f && csvRowOk vs fs
   | _, _ => false
 
 /-- every record of a decoded `-o csv` output is its row -/
-def csvRowsOk (L : Lib) : List (List Value) → List (List Bytes) → Bool
+def csvRowsOk : List (List Value) → List (List Bytes) → Bool
   | [], [] => true
-  | r :: rs, c :: cs => csvRowOk L r c && csvRowsOk L rs cs
+  | r :: rs, c :: cs => csvRowOk r c && csvRowsOk rs cs
   | _, _ => false
 
 /-! every string of the row (and the library's texts) is well-formed UTF-8 -/
